@@ -163,6 +163,14 @@ func encFile(r *vhlib.Rand, length int64) string {
 	if r.Chance(4) {
 		kvs = append(kvs, kv{"length", bint(length + 1)}) // duplicate key: the last one wins
 	}
+	if r.Chance(5) {
+		// a duplicate LIST key is decoded into the existing slice, element by element:
+		// shorter, longer and empty second lists
+		k := []string{"path", "path.utf-8"}[r.Intn(2)]
+		second := [][]string{{}, {"x" + strconv.Itoa(r.Intn(9))}, {"y", "z", "w", "v"}, pickPath(r)}[r.Intn(4)]
+		kvs = append(kvs, kv{k, encStrList(second)})
+		return encDict(r, kvs, false) // keep the order: which one comes second matters
+	}
 	return encDict(r, kvs, r.Chance(30))
 }
 
@@ -199,6 +207,21 @@ func genInfo(r *vhlib.Rand) string {
 			total += l // may wrap: deliberately
 		}
 		kvs = append(kvs, kv{"files", encList(files)})
+		if r.Chance(4) {
+			// a second `files` key: its elements are decoded INTO the existing ones
+			var f2 []string
+			for i := r.Intn(n + 2); i > 0; i-- {
+				switch r.Intn(3) {
+				case 0:
+					f2 = append(f2, "d6:length"+bint(int64(r.Intn(50000)))+"e")
+				case 1:
+					f2 = append(f2, "d4:path"+encStrList(pickPath(r))+"e")
+				default:
+					f2 = append(f2, encFile(r, int64(r.Intn(50000))))
+				}
+			}
+			kvs = append(kvs, kv{"files", encList(f2)})
+		}
 		if r.Chance(6) {
 			kvs = append(kvs, kv{"length", bint(pickLen(r, pl))}) // both
 		}
@@ -799,7 +822,7 @@ func runFile(c *vhlib.Ctx, b []byte, expInfo *string, class string) {
 		case err != nil && metaline.ErrTag(err) != "":
 			o = "err " + metaline.ErrTag(err)
 		}
-		c.Emit("rt "+vhlib.Hex(b), o)
+		c.Emit("rt", o)
 	}
 	c.Count(class+"/"+strings.Fields(res)[0]+func() string {
 		if f := strings.Fields(res); len(f) > 1 {
@@ -907,7 +930,7 @@ func runFile(c *vhlib.Ctx, b []byte, expInfo *string, class string) {
 	// the written bytes themselves, against the Lean encoder (and its own read-back)
 	{
 		h := sha1.Sum(buf.Bytes())
-		c.Emit(fmt.Sprintf("wtb %s %s %d %s", tiersStr(tiers1), joinOr(ws1), t.CreationDate, vhlib.Hex(t.Info)),
+		c.Emit(fmt.Sprintf("wtb %s %s %d", tiersStr(tiers1), joinOr(ws1), t.CreationDate),
 			fmt.Sprintf("%d %s same-info", buf.Len(), vhlib.Hex(h[:])))
 	}
 	var t2 *tor.Torrent
